@@ -22,7 +22,7 @@ import (
 // C20: independent objects can be used from concurrent goroutines.
 
 type c20Step struct {
-	Op   string `json:"op"` // parse parseND stream traverse cloneEdit serialize deserialize gc
+	Op   string `json:"op"` // parse parseND parseBad stream traverse cloneEdit serialize deserialize gc
 	Size int    `json:"size"`
 	Copy bool   `json:"copy"`
 	Mode int    `json:"mode"`
@@ -99,6 +99,29 @@ func runProgram(g int, prog []c20Step, repeat int) []string {
 					st.note(step.Op, c, werr)
 				} else {
 					st.note(step.Op, nil, err)
+				}
+			case "parseBad":
+				// a rejected document (late stage-1 error or early stage-2 error, on either side of the pipeline
+				// threshold) parsed into the goroutine's own object, which is then recycled at once as a Clone
+				// destination: whatever the failed call left running must not touch it any more
+				doc := docFor(g, step.Size, salt)
+				if step.Copy {
+					doc = append(doc[:len(doc)-2:len(doc)-2], []byte(`"unterminated`)...)
+				} else {
+					doc = append([]byte(`{"early":1 "missing":"comma",`), doc[1:]...)
+				}
+				_, err := simdjson.Parse(doc, st.pj, simdjson.WithCopyStrings(step.Mode%2 == 0))
+				st.note("parseBad", nil, nil)
+				if err == nil {
+					st.note("parseBad-accepted", doc, nil)
+				}
+				if st.pj != nil {
+					small, serr := simdjson.Parse(docFor(g, 0, salt+7), nil)
+					if serr == nil {
+						st.pj = small.Clone(st.pj)
+						c, werr := walkW1(st.pj)
+						st.note("recycled", c, werr)
+					}
 				}
 			case "stream":
 				var data []byte
@@ -288,7 +311,7 @@ func genProgram(t *rapid.T, zstdPressure bool) []c20Step {
 	var p []c20Step
 	p = append(p, c20Step{Op: "parse", Size: rapid.IntRange(0, 3).Draw(t, "size0"), Copy: rapid.Bool().Draw(t, "copy0")})
 	for i := 0; i < n; i++ {
-		op := []string{"parse", "parseND", "stream", "traverse", "cloneEdit", "serialize", "serialize", "deserialize", "deserialize", "gc", "traverse"}[rapid.IntRange(0, 10).Draw(t, "op")]
+		op := []string{"parse", "parseND", "stream", "traverse", "cloneEdit", "serialize", "serialize", "deserialize", "deserialize", "gc", "traverse", "parseBad"}[rapid.IntRange(0, 11).Draw(t, "op")]
 		s := c20Step{Op: op, Size: rapid.IntRange(0, 3).Draw(t, "size"), Copy: rapid.Bool().Draw(t, "copy"), Mode: rapid.IntRange(0, 3).Draw(t, "mode"), Re: rapid.Bool().Draw(t, "re")}
 		if zstdPressure && op == "serialize" {
 			s.Mode = 3
